@@ -59,22 +59,37 @@ OBLIGATIONS = {
 LE_BINDERS = ("(fig : SFig α) (landscape : LandExact α) (title : Option String) (labels : Option (List String))\n"
               "    (depth_range : Option (List Nat))")
 LA_BINDERS = "(natCast : Nat → α) " + LE_BINDERS.replace("LandExact", "LandApprox")
-H_MAX = " (hmax : landscape.depths.length ≤ (landscape.max_depth + 1).toNat)"
+# the hypothesis speaks about the COMPUTED object (for a lazily built one it holds by itself: `src_…_lazy`)
+H_MAX = " (hmax : landscape.compute_landscape.depths.length ≤ (landscape.compute_landscape.max_depth + 1).toNat)"
+H_LAZY_E = " (hlazy : landscape.depths = [])"
+H_LAZY_A = " (hlazy : (landscape.depths.all (·.isEmpty)) = true)"
 H_LAB = " (hlab : truthy labels = true → 2 ≤ (seqOf labels).length)"
 H_BAD = " (hl : truthy labels = true) (h2 : (seqOf labels).length < 2)"
-LAND_DOC = ("for EVERY landscape object (any number of depths, each any list; `max_depth` at least the number of depths minus one -- the "
-            "classes set `max_depth = len(...)`), every `depth_range` (`None`, `[]`, any list of depths), `title`, `labels` and every state "
-            "of the figure: the translated function adds exactly the model's lines (`%s`: one per depth that `depth_range` keeps, in "
-            "depth order, labelled `λ_k`, on the given axes, `alpha=alpha`), then `legend()`, the title if it is a non-empty string, the "
-            "two axis labels if a non-empty list is given (hypothesis: then it has two entries; otherwise `src_…_index`: IndexError)")
+LAND_DOC = ("for EVERY landscape object in EVERY state it can be passed in (a stored landscape, or built with `compute=False`: nothing "
+            "stored yet; any number of depths, each any list; after `landscape.compute_landscape()` -- the state transformer "
+            "`compute_landscape` of Lemmas/SrcLibPlot.lean, translated where the statement stands -- `max_depth` at least the number of "
+            "depths minus one: the classes set `max_depth = len(...)`), every `depth_range` (`None`, `[]`, any list of depths), `title`, "
+            "`labels` and every state of the figure: the translated function adds exactly the model's lines FOR THE COMPUTED LANDSCAPE "
+            "(`%s`: one per depth of `landscape.compute_landscape` that `depth_range` keeps -- all of them for `None` / `[]`, the default "
+            "being read from the computed `max_depth` -- in depth order, labelled `λ_k`, on the given axes, `alpha=alpha`), then "
+            "`legend()`, the title if it is a non-empty string, the two axis labels if a non-empty list is given (hypothesis: then it has "
+            "two entries; otherwise `src_…_index`: IndexError)")
+LAZY_DOC = ("a landscape built with `compute=False` (nothing stored): the lines drawn are those of what `compute_landscape()` computes "
+            "(`fromDgms`), ALL of them when `depth_range` is `None` / `[]` -- no hypothesis on `max_depth`, the method sets it")
 OBLIGATIONS_L = {
     "plot_landscape_exact_simple": [
         ("src_plot_landscape_exact_simple_eq_model", LE_BINDERS + "\n   " + H_MAX + H_LAB,
          "plot_landscape_exact_simple Axes.given fig landscape title labels depth_range =\n"
-         "      .ok ((fig.afterArtists (landscapeExactSimple landscape.depths depth_range)).landAfter title labels)",
+         "      .ok ((fig.afterArtists (landscapeExactSimple landscape.compute_landscape.depths depth_range)).landAfter title labels)",
          "by\n  rw [src_plot_landscape_exact_simple_eq_ref]\n"
          "  exact %s.plot_landscape_exact_simple_eq_model fig landscape title labels depth_range hmax hlab" % BR,
          LAND_DOC % "Plot.landscapeExactSimple"),
+        ("src_plot_landscape_exact_simple_lazy", LE_BINDERS + "\n   " + H_LAZY_E + H_LAB,
+         "plot_landscape_exact_simple Axes.given fig landscape title labels depth_range =\n"
+         "      .ok ((fig.afterArtists (landscapeExactSimple landscape.fromDgms depth_range)).landAfter title labels)",
+         "by\n  rw [src_plot_landscape_exact_simple_eq_ref]\n"
+         "  exact %s.plot_landscape_exact_simple_lazy fig landscape title labels depth_range hlazy hlab" % BR,
+         LAZY_DOC),
         ("src_plot_landscape_exact_simple_index", LE_BINDERS + "\n   " + H_BAD,
          "plot_landscape_exact_simple Axes.given fig landscape title labels depth_range = .error Err.index",
          "by\n  rw [src_plot_landscape_exact_simple_eq_ref]\n"
@@ -84,10 +99,16 @@ OBLIGATIONS_L = {
     "plot_landscape_approx_simple": [
         ("src_plot_landscape_approx_simple_eq_model", LA_BINDERS + "\n   " + H_MAX + H_LAB,
          "plot_landscape_approx_simple natCast Axes.given fig landscape title labels depth_range =\n"
-         "      .ok ((fig.afterArtists (landscapeApproxSimple natCast landscape.start landscape.stop landscape.depths depth_range)).landAfter title labels)",
+         "      .ok ((fig.afterArtists (landscapeApproxSimple natCast landscape.start landscape.stop landscape.compute_landscape.depths depth_range)).landAfter title labels)",
          "by\n  rw [src_plot_landscape_approx_simple_eq_ref]\n"
          "  exact %s.plot_landscape_approx_simple_eq_model natCast fig landscape title labels depth_range hmax hlab" % BR,
          LAND_DOC % "Plot.landscapeApproxSimple: depth k over `linspace(start, stop, len(values[k]))`"),
+        ("src_plot_landscape_approx_simple_lazy", LA_BINDERS + "\n   " + H_LAZY_A + H_LAB,
+         "plot_landscape_approx_simple natCast Axes.given fig landscape title labels depth_range =\n"
+         "      .ok ((fig.afterArtists (landscapeApproxSimple natCast landscape.start landscape.stop landscape.fromDgms depth_range)).landAfter title labels)",
+         "by\n  rw [src_plot_landscape_approx_simple_eq_ref]\n"
+         "  exact %s.plot_landscape_approx_simple_lazy natCast fig landscape title labels depth_range hlazy hlab" % BR,
+         LAZY_DOC),
         ("src_plot_landscape_approx_simple_index", LA_BINDERS + "\n   " + H_BAD,
          "plot_landscape_approx_simple natCast Axes.given fig landscape title labels depth_range = .error Err.index",
          "by\n  rw [src_plot_landscape_approx_simple_eq_ref]\n"
@@ -97,10 +118,18 @@ OBLIGATIONS_L = {
 }
 EXAMPLES = {
     "plot_landscape_exact_simple": [
-        "/-- non-vacuity of the hypotheses: three depths with `max_depth = 3` (what `compute_landscape` sets), two axis labels -/\n"
-        "example : (⟨[[(0, 0), (1, 1), (2, 0)], [(0, 0), (2, 0)], [(1, 0)]], 3⟩ : LandExact Int).depths.length ≤\n"
-        "      ((⟨[[(0, 0), (1, 1), (2, 0)], [(0, 0), (2, 0)], [(1, 0)]], 3⟩ : LandExact Int).max_depth + 1).toNat ∧\n"
-        "    (truthy (some [\"t\", \"value\"]) = true → 2 ≤ (seqOf (some [\"t\", \"value\"])).length) := by decide"],
+        "/-- non-vacuity of the hypotheses: three stored depths with `max_depth = 3`, and the same landscape built with `compute=False`\n"
+        "    (nothing stored, `max_depth = 0`: `compute_landscape` stores the three depths and sets `max_depth = 3`); two axis labels -/\n"
+        "example : (⟨[[(0, 0), (1, 1), (2, 0)], [(0, 0), (2, 0)], [(1, 0)]], 3, []⟩ : LandExact Int).compute_landscape.depths.length ≤\n"
+        "      ((⟨[[(0, 0), (1, 1), (2, 0)], [(0, 0), (2, 0)], [(1, 0)]], 3, []⟩ : LandExact Int).compute_landscape.max_depth + 1).toNat ∧\n"
+        "    (⟨[], 0, [[(0, 0), (1, 1), (2, 0)], [(0, 0), (2, 0)], [(1, 0)]]⟩ : LandExact Int).compute_landscape.depths.length = 3 ∧\n"
+        "    (⟨[], 0, [[(0, 0), (1, 1), (2, 0)], [(0, 0), (2, 0)], [(1, 0)]]⟩ : LandExact Int).compute_landscape.max_depth = 3 ∧\n"
+        "    (truthy (some [\"t\", \"value\"]) = true → 2 ≤ (seqOf (some [\"t\", \"value\"])).length) := by decide",
+        "/-- the auditor's case (ly15): a landscape built with `compute=False` whose computation gives three depths, default\n"
+        "    `depth_range`: THREE lines are drawn (the default range is read from the computed `max_depth`, not from the stored `0`) -/\n"
+        "example : (plot_landscape_exact_simple Axes.given SFig.empty\n"
+        "      (⟨[], 0, [[(0, 0), (1, 1), (2, 0)], [(0, 0), (2, 0)], [(1, 0)]]⟩ : LandExact Int) none none none).toOption.map\n"
+        "      (fun f => f.artists.length) = some 3 := by decide"],
 }
 
 TARGETS = [
@@ -117,10 +146,10 @@ TARGETS = [
 
 TARGETS += [
     dict(func="plot_landscape_exact_simple", lean="plot_landscape_exact_simple", pyfile=PYFILE_L, lead=[],
-         params=[("landscape", "LE"), ("alpha", "opaque"), ("padding", "opaque"), ("title", "OSTR"), ("ax", "AX"), ("labels", "OLS"),
+         params=[("landscape", "LE0"), ("alpha", "opaque"), ("padding", "opaque"), ("title", "OSTR"), ("ax", "AX"), ("labels", "OLS"),
                  ("depth_range", "OLN")]),
     dict(func="plot_landscape_approx_simple", lean="plot_landscape_approx_simple", pyfile=PYFILE_L, lead=[("natCast", "Nat → α")],
-         params=[("landscape", "LA"), ("alpha", "opaque"), ("padding", "opaque"), ("num_steps", "opaque"), ("title", "OSTR"), ("ax", "AX"),
+         params=[("landscape", "LA0"), ("alpha", "opaque"), ("padding", "opaque"), ("num_steps", "opaque"), ("title", "OSTR"), ("ax", "AX"),
                  ("labels", "OLS"), ("depth_range", "OLN")]),
 ]
 for _c in TARGETS:
@@ -164,14 +193,17 @@ SIGNATURES = {
     'plot_landscape_exact_simple': 'def plot_landscape_exact_simple(landscape: PersLandscapeExact, alpha=1, padding=0.1, title=None, ax=None, labels=None, depth_range=None)',
     'plot_landscape_approx_simple': 'def plot_landscape_approx_simple(landscape: PersLandscapeApprox, alpha=1, padding=0.1, num_steps=1000, title=None, ax=None, labels=None, depth_range=None)',
 }
-# the statements that are effects the model does not carry (Model/Plot.lean: "Not modelled: plt.style.use(colormap), … show");
-# `landscape.compute_landscape()`: the landscape argument of the translation IS the object after it (Lemmas/SrcLibPlot.lean, LandExact)
+# the statements that are effects the model does not carry (Model/Plot.lean: "Not modelled: plt.style.use(colormap), … show"), each
+# WITH ITS POSITION `[k|n]`: `k` the path of the statement in the function body (docstring excluded; `5.then.0` = first statement
+# of the `if` that is statement 5), `n` the number of names the translation has bound before it (every translated statement binds
+# at least one, so moving an effect across a translated statement changes `n` even when `k` stays).
+# `landscape.compute_landscape()` is NOT here: it writes state that translated statements read and is translated (state transformer).
 EFFECTS = {
-    'plot_diagrams': ['plt.style.use(colormap)', "ax.set_aspect('equal', 'box')", 'if show is True:\n    plt.show()'],
+    'plot_diagrams': ['[1|1] plt.style.use(colormap)', "[19|53] ax.set_aspect('equal', 'box')", '[22|57] if show is True:\n    plt.show()'],
     'bottleneck_matching': [],
     'wasserstein_matching': [],
-    'plot_landscape_exact_simple': ['landscape.compute_landscape()', 'ax.margins(padding)'],
-    'plot_landscape_approx_simple': ['landscape.compute_landscape()', 'ax.margins(padding)'],
+    'plot_landscape_exact_simple': ['[5|5] ax.margins(padding)'],
+    'plot_landscape_approx_simple': ['[5|5] ax.margins(padding)'],
 }
 # conversions read as the identity, with the statement they stand in: a matching row holds integer-valued floats, `int(i)` makes the
 # Python int the model's `Row` carries; `np.array(l)` of a list of pairs is the list of its rows
